@@ -27,7 +27,7 @@ GATES = {
     "correspondent_outside_left_edge": 1, "correspondent_outside_right_edge": 1,
     "half_integer_at_even_column": 1, "half_integer_at_odd_column": 1,
     "nan_right_value_at_correspondent": 1, "mismatch_only_at_interval_end": 1, "pixel_already_invalid": 1,
-    "pipeline_validation_steps": 5, "pixels_classified": 20000,
+    "pipeline_validation_steps": 5, "pixels_classified": 20000, "validation_steps_with_filling_watched": 2,
 }
 INVALID = 0b1111000011
 OCC, MIS = 256, 512
@@ -249,9 +249,14 @@ def _pipe(case, ctx):
             seen = True
         kk.append(k)
     keys = kk
+    # a third of the pipelines keep a filling option: the cross-check of EACH map must then still see the other map as the
+    # preceding steps left it (the flags of such a step are C14's subject; here only what the two cross-checks received)
+    fill = [None, None, "mc-cnn", "sgm"][int(rng.integers(0, 4))] if case["i"] % 3 == 2 else None
     for k in keys:
         if pipes.kind_of(k) == "validation":
             params[k].pop("interpolated_disparity", None)
+            if fill:
+                params[k]["interpolated_disparity"] = fill
     tex = gen.TEXTURES[int(rng.integers(0, 5))]
     l, r = gen.stereo_pair(rng, rows, cols, tex, max_shift=3)
     lm = gen.mask(rng, rows, cols, gen.MASK_KINDS[int(rng.integers(0, 9))]) if rng.random() < 0.4 else None
@@ -273,6 +278,16 @@ def _pipe(case, ctx):
     def after(ev, mm):
         if ev["kind"] != "validation":
             return
+        ctx.gate("validation_steps_with_filling_watched", int(bool(fill)))
+        for ref_d, sec_d in received:
+            pre = [st["b"]["left_disparity"]["disparity_map"].data, st["b"]["right_disparity"]["disparity_map"].data]
+            if not any(gen.same(sec_d, p_) for p_ in pre) or not any(gen.same(ref_d, p_) for p_ in pre):
+                ctx.violation("cross-check-received-a-map-already-modified-by-the-step",
+                              "one of the two cross-checks of the validation step was given a disparity map that is neither the left "
+                              "nor the right map as the preceding steps left them", case, situation=str(fill), desc=desc)
+        del received[:]
+        if fill:
+            return
         thr = cfg["pipeline"][ev["step_key"]]["cross_checking_threshold"]
         bl, br = st["b"]["left_disparity"], st["b"]["right_disparity"]
         for side, me_b, other_b, me_a in (("left", bl, br, mm.left_disparity), ("right", br, bl, mm.right_disparity)):
@@ -287,5 +302,21 @@ def _pipe(case, ctx):
         ctx.gate("pipeline_validation_steps")
 
     trace.Tracer(m, on_before=before, on_after=after)
-    pandora.run(m, left, right, cfg)
+    from pandora import validation as _val
+    received, undo = [], []
+    for cls in set(_val.AbstractValidation.validation_methods_avail.values()):
+        orig = cls.disparity_checking
+
+        def make(orig=orig):
+            def w(self_, ds_ref, ds_sec, *a_, **k_):
+                received.append((ds_ref["disparity_map"].data.copy(), ds_sec["disparity_map"].data.copy()))
+                return orig(self_, ds_ref, ds_sec, *a_, **k_)
+            return w
+        cls.disparity_checking = make()
+        undo.append((cls, orig))
+    try:
+        pandora.run(m, left, right, cfg)
+    finally:
+        for cls, orig in undo:
+            cls.disparity_checking = orig
     ctx.case(["pipe", keys, desc["params"], [rows, cols], [a, b]], nontrivial=True)
